@@ -16,7 +16,7 @@ def op_strategy(nconn, weights='mixed'):
     def mk(kind):
         # (fresh strategy objects: one_of() collapses identical ones, which would undo the weighting)
         name = st.sampled_from(NAMES + [ROOT])
-        if kind in ('read', 'readcurrent'):
+        if kind in ('read', 'readcurrent', 'discard'):
             return st.tuples(st.just(kind), c, name)
         if kind == 'write':
             return st.tuples(st.just('write'), c, st.sampled_from(PLAIN + [ROOT]))
@@ -24,7 +24,7 @@ def op_strategy(nconn, weights='mixed'):
             return st.tuples(st.just('inc'), c, st.sampled_from(COUNTERS), st.integers(1, 5))
         return st.tuples(st.just(kind), c)
     mix = ['stall', 'read', 'read', 'readall', 'write', 'write', 'inc', 'commit', 'commit', 'abort', 'begin', 'minimize',
-           'close_open', 'readcurrent']
+           'close_open', 'readcurrent', 'restart', 'discard']
     if weights == 'write-heavy':
         mix += ['write', 'write', 'inc', 'commit', 'commit', 'readcurrent', 'savepoint', 'savepoint']
     else:
@@ -89,6 +89,7 @@ class MWorld:
         CR._class_cache.clear()
         del vclasses.RESOLVE_LOG[:]
         self.out, self.prop, self.kind = out, prop, kind
+        self.dir, self.pool_size = d, pool_size
         self.db = ZODB.DB(make_storage(kind, d), pool_size=pool_size)
         self.n = nconn
         self.tms = [transaction.TransactionManager() for _ in range(nconn)]
@@ -185,6 +186,15 @@ class MWorld:
             if nme not in self.writes[c]:
                 self.base[c][nme] = self.value_at(nme, self.snap[c])[0]
             self.writes[c][nme] = {'n': self.view(c, nme)['n'] + op[3]}
+        elif k == 'discard':
+            # the uncommitted change of one object is thrown away (object invalidated by the program): it is not
+            # written by this transaction any more; what was declared with readCurrent stays declared
+            nme = op[2]
+            if nme in self.writes[c] and nme != ROOT:
+                conn.root()[nme]._p_invalidate()
+                del self.writes[c][nme]
+                self.base[c].pop(nme, None)
+                self.labels.add('change-discarded')
         elif k == 'readcurrent':
             nme = op[2]
             o = conn.root() if nme == ROOT else conn.root()[nme]
@@ -201,6 +211,19 @@ class MWorld:
             self.boundary(c)
         elif k == 'minimize':
             conn.cacheMinimize()
+        elif k == 'restart':
+            # (file storages) the whole database is closed and opened again - from its saved index -; every
+            # connection starts over at a fresh boundary
+            if self.kind == 'fs':
+                import ZODB
+                for i in range(self.n):
+                    self.tms[i].abort()
+                    self.conns[i].close()
+                self.db.close()
+                self.db = ZODB.DB(make_storage(self.kind, self.dir), pool_size=self.pool_size)
+                for i in range(self.n):
+                    self.open(i)
+                self.labels.add('database-restarted')
         elif k == 'close_open':
             self.tms[c].abort()
             conn.close()
@@ -323,7 +346,12 @@ class MWorld:
         for t in it:
             for r in t:
                 if r.oid in oid_name and r.data:
-                    revs.setdefault(oid_name[r.oid], []).append((t.tid, r.data))
+                    lst = revs.setdefault(oid_name[r.oid], [])
+                    if lst and lst[-1][0] == t.tid:
+                        # an object changed, invalidated by the program and changed again is registered - and
+                        # stored - twice in one transaction (DESIGN 10.2 obs. 10): the last record counts
+                        lst.pop()
+                    lst.append((t.tid, r.data))
         getattr(it, 'close', lambda: None)()
         for nme in PLAIN:
             rs = revs.get(nme, [])
